@@ -309,7 +309,7 @@ def cases(tier):
         psets = [(p,) for p in range(npos)] + [tuple(range(npos))]
         if tier == "thorough":
             psets += list(itertools.combinations(range(npos), 2))
-        kinds = [e[0] for e in c08.EXPRS if e[0] != "round"]  # numpy.round is not exportable (known finding)
+        kinds = [e[0] for e in c08.EXPRS if e[0] not in ("round", "round-tie")]  # numpy.round is not exportable (known finding)
         for pi, ps in enumerate(psets):
             for act in ((), (1,), (nst - 2,), (nst - 1,)):
                 pos = plain_positions(name, act)
@@ -335,6 +335,16 @@ def cases(tier):
                 out.append((name, (), ch, "2d", "virtual", idk))
                 out.append((name, (), ch, "mappable", "virtual", idk))
     out += [("shared",) + c[1:] for c in c08.pair_cases(tier)]
+    # C08's skeleton templates: every applicable expression kind at every single position (plain and mappable register)
+    w8 = World(c08.WORLD)
+    for name in c08.SKELETONS:
+        pos = c08.positions_of(name, w8)
+        for p8 in sorted(pos):
+            for k8 in (e[0] for e in c08.EXPRS):
+                if k8 not in ("round", "round-tie") and c08.applicable(k8, pos[p8][0], pos[p8][1], p8):
+                    out.append(("c08prog", name, ((p8, k8),), False))
+                    if isinstance(pos[p8][0], c08.ArrBase) or tier == "thorough":
+                        out.append(("c08prog", name, ((p8, k8),), True))
     # de-duplicate
     seen = set()
     uniq = []
@@ -429,9 +439,80 @@ def run_shared(what, i, j):
     return out + [("@roundtrip", "")]
 
 
+def run_c08prog(name, chosen_t, mappable):
+    """C08's skeleton templates (every expression kind at every position, incl. whole-array arguments combined with array
+    literals) through both codecs: decode(encode(template)) builds to the same sequence as the template, for two assignments."""
+    from pulser import Sequence
+
+    chosen = dict(chosen_t)
+    w = World(c08.WORLD)
+    out = []
+    with warnings.catch_warnings():
+        warnings.simplefilter("ignore")
+        pos = c08.positions_of(name, w)
+        A = {p: b for p, (b, i) in pos.items()}
+        B = {p: (c08.alt(b, i, p) if p in chosen else b) for p, (b, i) in pos.items()}
+        qmap = {}
+        if mappable:
+            tmpl, mapping = c08.mappable_template(w)
+            qmap = {"qubits": mapping}
+        else:
+            tmpl = w.fresh(apply_prefix=False)
+        TV = c08.Vals("template", chosen, A, tmpl)
+        try:
+            c08.SKELETONS[name](tmpl, TV, w)
+        except Exception as e:
+            return [("@program-not-constructible", type(e).__name__)]
+        if TV.skip:
+            return [("@expression-not-applicable", "")]
+        kinds = "+".join(sorted(set(chosen.values())))
+        compared = 0
+        for codec in ("abstract", "legacy"):
+            try:
+                doc = tmpl.to_abstract_repr() if codec == "abstract" else tmpl._serialize()
+            except Exception as e:
+                if "No abstract representation for" in str(e):
+                    out.append(("@expression-not-exportable", str(e)[:60]))
+                    continue
+                if "of unknown length and unspecified 'times'" in str(e):
+                    out.append((f"C04:encode-unsupported-interpolated-values-of-unknown-length:{codec}", f"c08-{name} {chosen}: {e}"[:250]))
+                    continue
+                out.append((f"C04:encode-raises:{codec}:c08-{name}:{type(e).__name__}", f"{chosen}: {e}"[:250]))
+                continue
+            if codec == "abstract":
+                err = own_validate(json.loads(doc))
+                if err:
+                    out.append((f"C04:schema-invalid:c08-{name}", f"{chosen}: {err}"))
+            try:
+                dec = Sequence.from_abstract_repr(doc) if codec == "abstract" else Sequence._deserialize(doc)
+            except Exception as e:
+                out.append((f"C04:decode-raises:{codec}:c08-{name}:{type(e).__name__}", f"{chosen}: {e}"[:250]))
+                continue
+            for tag, assign in (("A", A), ("B", B)):
+                vals = TV.var_values(assign)
+                if vals is None:
+                    continue
+                try:
+                    b1 = tmpl.build(**vals, **qmap)
+                except Exception:
+                    continue
+                try:
+                    b2 = dec.build(**vals, **qmap)
+                except Exception as e:
+                    out.append((f"C04:decoded-build-raises:{codec}:c08-{name}:{type(e).__name__}", f"{chosen} {tag}: {e}"[:250]))
+                    continue
+                compared += 1
+                s1, s2 = snapshot.snap(b1, False), snapshot.snap(b2, False)
+                if norm(s1) != norm(s2):
+                    out.append((f"C04:decoded-build-differs:{codec}:c08-{name}:{_diff(s1, s2)}:{kinds}", f"{chosen} assignment {tag}"))
+    return out + [("@roundtrip" if compared else "@nothing-built", "")]
+
+
 def run_case(case):
     if case[0] == "shared":
         return run_shared(case[1], case[2], case[3])
+    if case[0] == "c08prog":
+        return run_c08prog(case[1], case[2], case[3])
     return run_case_prog(case)
 
 
@@ -568,6 +649,9 @@ def run(tier, seed):
                 if c[0] == "shared":
                     res.add(Violation(fp, d, {"engine": "progx", "case": list(c)}, size=0))
                     continue
+                if c[0] == "c08prog":
+                    res.add(Violation(fp, d, {"engine": "progx", "case": [c[0], c[1], [list(x) for x in c[2]], c[3]]}, size=1))
+                    continue
                 res.add(Violation(fp, d, {"engine": "progx", "case": [c[0], list(c[1]), [list(x) for x in c[2]], c[3], c[4]] + list(c[5:])},
                                   size=len(c[1]) + len(c[2])))
     res.coverage = dict(
@@ -589,5 +673,7 @@ def replay(payload):
     c = payload["case"]
     if c[0] == "shared":
         return [Violation(fp, d, payload) for fp, d in run_case(tuple(c)) if not fp.startswith("@")]
+    if c[0] == "c08prog":
+        return [Violation(fp, d, payload) for fp, d in run_case((c[0], c[1], tuple((int(p), k) for p, k in c[2]), c[3])) if not fp.startswith("@")]
     case = (c[0], tuple(c[1]), tuple((int(p), k) for p, k in c[2]), c[3], c[4]) + tuple(c[5:])
     return [Violation(fp, d, payload) for fp, d in run_case(case) if not fp.startswith("@")]
